@@ -19,7 +19,7 @@ func init() {
 	Register(&Rule{
 		ID:    "R-ENUM",
 		Doc:   "constant-set dataflow over the switch of thrift.skip: every thrift.Type constant except STOP reaches a case of its own; json Encoder/Decoder option methods: the constant or'ed in (and and-not'ed out on the other branch of a bool setter) is the exported flag whose name the method carries (SetEscapeHTML ↔ EscapeHTML, UseNumber ↔ UseNumber, …), and both branches use the same constant",
-		Props: []string{"C08", "C14", "C01", "C02"},
+		Props: []string{"C08", "C14", "C01", "C02", "C13"},
 		Min:   map[string]int{"C08": 10, "C14": 8, "C01": 3, "C02": 5},
 		Run:   runEnum,
 	})
@@ -137,7 +137,7 @@ func runEnum(c *core.Ctx) []core.Obligation {
 					}
 				}
 				if wrong != "" {
-					b.addP([]string{"C08"}, core.Violation, key, c.FuncPos(fn), fmt.Sprintf("thrift.skip consumes a value of Type %s with %s instead of %s: the two have different encodings in the compact protocol (an i64 is a zig-zag varint, a double eight bytes), so skipping an undeclared field of that type loses the framing of everything after it", n, wrong, want))
+					b.addP([]string{"C08", "C13"}, core.Violation, key, c.FuncPos(fn), fmt.Sprintf("thrift.skip consumes a value of Type %s with %s instead of %s: the two have different encodings in the compact protocol (an i64 is a zig-zag varint, a double eight bytes), so skipping an undeclared field of that type loses the framing of everything after it", n, wrong, want))
 				} else if handled {
 					b.addP([]string{"C08"}, core.Discharged, key, c.FuncPos(fn), "has a case of its own, which reads with "+want)
 				} else {
